@@ -36,9 +36,9 @@ MISSING = ["missing", "./nope/x", "d/missing", "file/x", "../zz"]
 ONLY_FILES0 = ["-x", "-print", "a\nb", "-x/", "!", "(", "-x/in", "a\nb/c"]
 
 
-def expected(sb, cwd, roots, sorted_):
+def expected(sb, cwd, roots, sorted_, mode="P", mind=0, maxd=None):
     """-> (list of per-root expected path lists, n_missing)"""
-    w = refwalk.Walk("P", 0, None, False, True, cwd)
+    w = refwalk.Walk(mode, mind, maxd, False, True, cwd)
     per = []
     for r in roots:
         out = []
@@ -49,7 +49,7 @@ def expected(sb, cwd, roots, sorted_):
     return per, missing, w
 
 
-def compare(st, per, got, sorted_, ctx_detail, rp):
+def compare(st, per, got, sorted_, ctx_detail, rp, mind=0):
     flat = [p for seg in per for p in seg]
     st.inc("paths_compared", len(flat))
     if sorted_:
@@ -73,7 +73,7 @@ def compare(st, per, got, sorted_, ctx_detail, rp):
         if sorted(g) != sorted(seg):
             st.violate("wrong-output", None, dict(ctx_detail, root_index=ri, expected_segment=seg[:4], observed_segment=g[:4]), rp)
             return False
-        if seg and g[0] != seg[0]:
+        if seg and g[0] != seg[0] and mind == 0:
             st.violate("wrong-output", None, dict(ctx_detail, root_index=ri, note="a starting point's segment must begin with the starting point itself",
                                                   expected_first=seg[0], observed_first=g[0]), rp)
             return False
@@ -98,19 +98,31 @@ def worker(job):
             if rng.random() < 0.2 and n >= 2:
                 roots[-1] = roots[0]            # duplicate
             sorted_ = rng.random() < 0.6
-            tail = (["-sorted"] if sorted_ else []) + ["-print0"]
+            # follow mode and depth bounds: neither may change how a starting point is spelled or whether it is diagnosed
+            mode = rng.choice(["P", "P", "P", "H", "L", "follow"])
+            lead = {"P": rng.choice([[], ["-P"]]), "H": ["-H"], "L": ["-L"], "follow": []}[mode]
+            mind = rng.choice([0, 0, 0, 1, 2])
+            maxd = rng.choice([None, None, None, 0, 1, 2])
+            if maxd is not None and mind > maxd:
+                maxd = None
+            tail = (["-follow"] if mode == "follow" else []) + (["-mindepth", str(mind)] if mind or rng.random() < 0.1 else []) \
+                + (["-maxdepth", str(maxd)] if maxd is not None else []) + (["-sorted"] if sorted_ else []) + ["-print0"]
+            rmode = "L" if mode == "follow" else mode
+            st.inc("follow:" + mode)
+            if mind:
+                st.inc("runs_with_mindepth")
             env = common.clean_env()
             st.inc("shape:" + shape)
             for r in roots:
                 st.add("spellings", r.replace(sb, "ABS"))
             if shape == "none":
                 roots_eff = ["."]
-                args = [common.FIND] + tail
+                args = [common.FIND] + lead + tail
                 stdin = None
             elif shape == "operands":
                 roots_eff = roots
                 # operands that would be read as part of the expression cannot be given directly
-                args = [common.FIND] + roots + tail
+                args = [common.FIND] + lead + roots + tail
                 stdin = None
             else:
                 names = list(roots)
@@ -136,13 +148,13 @@ def worker(job):
                     st.inc("files0_with_dash_or_newline_names")
                 roots_eff = [x for x in names if x != ""]
                 if shape == "files0-stdin":
-                    args = [common.FIND, "-files0-from", "-"] + tail
+                    args = [common.FIND] + lead + ["-files0-from", "-"] + tail
                     stdin = data
                 else:
                     lf = os.path.join(base, "list-%d" % run)
                     with open(lf, "wb") as f:
                         f.write(data)
-                    args = [common.FIND, "-files0-from", lf] + tail
+                    args = [common.FIND] + lead + ["-files0-from", lf] + tail
                     stdin = None
             rc, out, err, to = common.run_cmd(args, cwd=cwd, env=env, timeout=60, input=stdin)
             st.inc("evaluations")
@@ -152,11 +164,14 @@ def worker(job):
                 st.violate("panic-or-hang", None, {"args": args, "rc": rc, "stderr": err[-300:]}, rp)
                 continue
             got = [x.decode("utf-8", "surrogateescape") for x in out.split(b"\0")[:-1]]
-            per, n_missing, w = expected(sb, cwd, roots_eff, sorted_)
+            per, n_missing, w = expected(sb, cwd, roots_eff, sorted_, rmode, mind, maxd)
+            if w.out_of_domain or any(e_[0] in ("loop", "unreadable") for e_ in w.errors):
+                st.inc("out_of_domain(loop under a follow mode)")
+                continue
             detail = {"args": [a.replace(sb, "ABS") for a in args[1:]], "shape": shape, "exit": rc, "stderr": err[-200:]}
             if shape.startswith("files0") or shape == "equiv":
                 detail["names"] = roots_eff
-            ok = compare(st, per, got, sorted_, detail, rp)
+            ok = compare(st, per, got, sorted_, detail, rp, mind)
             if n_missing:
                 st.inc("runs_with_missing_starting_point")
                 if rc == 0:
@@ -169,7 +184,7 @@ def worker(job):
                 st.violate("empty-name-not-diagnosed", None, detail, rp)
             if shape == "equiv" and ok:
                 # the same names as operands must give byte-identical output and the same exit status
-                rc2, out2, err2, to2 = common.run_cmd([common.FIND] + roots_eff + tail, cwd=cwd, env=env, timeout=60)
+                rc2, out2, err2, to2 = common.run_cmd([common.FIND] + lead + roots_eff + tail, cwd=cwd, env=env, timeout=60)
                 st.inc("equivalence_pairs")
                 same = out2 == out if sorted_ else sorted(out2.split(b"\0")) == sorted(out.split(b"\0"))
                 if not same or (rc2 == 0) != (rc == 0):
@@ -189,7 +204,8 @@ def run(ctx):
                 "with empty names, with names starting with '-' or containing a newline); half of the runs -sorted (exact sequence), the rest "
                 "per-starting-point segments as multisets; distinct = (shape, names, sorted)")
     ctx.assumptions = ["lib/refwalk.py per starting point, children joined textually with one '/' unless the starting point ends in '/'",
-                       "exit status after an empty -files0-from name not judged (statement: diagnosed and skipped)", "valid UTF-8 names"]
+                       "exit status after an empty -files0-from name not judged (statement: diagnosed and skipped)", "valid UTF-8 names",
+                       "follow modes -P/-H/-L/-follow and -mindepth/-maxdepth are varied; runs whose reference walk meets a link loop are not judged"]
     nw = common.NCPU
     n = ctx.scale(1600, 80000)
     ctx.pmap(worker, [(k, n // nw, ctx.seed) for k in range(nw)])
